@@ -183,3 +183,15 @@ def mkcol_body(kind, props=()):
         parts.append('<P:%s xmlns:P="%s">%s</P:%s>' % (local, ns, escape(v), local))
     parts.append('</D:prop></D:set></D:mkcol>')
     return "".join(parts).encode("utf-8")
+
+
+def mkcalendar_body(props=()):
+    """MKCALENDAR request body (RFC 4791 5.3.1) setting properties at creation."""
+    from xml.sax.saxutils import escape
+    parts = ['<?xml version="1.0" encoding="utf-8"?><C:mkcalendar xmlns:D="DAV:" '
+             'xmlns:C="urn:ietf:params:xml:ns:caldav"><D:set><D:prop>']
+    for p, v in props:
+        ns, local = _qname(PROP_TAGS.get(p, p))
+        parts.append('<P:%s xmlns:P="%s">%s</P:%s>' % (local, ns, escape(v), local))
+    parts.append('</D:prop></D:set></C:mkcalendar>')
+    return "".join(parts).encode("utf-8")
